@@ -66,21 +66,11 @@ Qed.
    C02_refused: while subscribed to all types an individual request raises InvalidSubscription, sends
    nothing, and changes nothing on either side.
    ------------------------------------------------------------------------------------------------ *)
-Definition individual_request (o : op) (l : list Z) : Prop :=
-  o = OSub l \/ o = OUnsub l \/ o = OPause l \/ o = OResume l.
-
+(* individual_request o l (Proofs/SubsProofs.v):  o = OSub l \/ o = OUnsub l \/ o = OPause l \/ o = OResume l *)
 Theorem C02_refused : forall s o l, sub_all (cl s) = true -> individual_request o l ->
   mem ALL_MESSAGE_TYPES l = false ->
   client_step (cl s) o = SRaise EInvalidSubscription (cl s) /\ sys_step s o = (s, Some EInvalidSubscription).
-Proof.
-  intros [c m] o l A R HA. cbn [cl] in *.
-  assert (E : client_step c o = SRaise EInvalidSubscription c).
-  { destruct R as [R|[R|[R|R]]]; subst o; cbn [client_step];
-      [change (subscribe c l) with (sub_ctrl c l (kstr KSub))|change (unsubscribe c l) with (sub_ctrl c l (kstr KUnsub))
-      |change (pause_subscription c l) with (sub_ctrl c l (kstr KPause))
-      |change (resume_subscription c l) with (sub_ctrl c l (kstr KResume))]; rewrite sub_ctrl_eq, HA, A; reflexivity. }
-  split; [exact E|]. unfold sys_step. cbn [cl mg]. rewrite E. reflexivity.
-Qed.
+Proof. exact refused. Qed.
 
 (* and even if individual control frames did reach a manager that has the module subscribed to all, it
    would ignore them (manager.py: `if src_module.sub_all: return`) *)
